@@ -414,6 +414,7 @@ type pipeRun struct {
 	// mirrorDead + qcap: the mirror target refuses every packet and all queues hold qcap entries
 	mirrorDead bool
 	qcap       int
+	mqCap      int // capacity of the outgoing queue (0 = 1000); nobody consumes it during a run
 }
 
 type pipeObs struct {
@@ -462,6 +463,9 @@ func runPipe(r *pipeRun, out *pipeObs, mu *realsync.Mutex) {
 		drainMirror()
 	}
 	cfg.mirrorDead, cfg.qcap = r.mirrorDead, r.qcap
+	if r.mqCap > 0 {
+		cfg.mqCap = r.mqCap
+	}
 	if r.qcap > 0 && r.udpCap == 0 {
 		cfg.udpCap = r.qcap
 	}
@@ -479,6 +483,11 @@ func runPipe(r *pipeRun, out *pipeObs, mu *realsync.Mutex) {
 	sched.Quiesce()
 	if conn.Pending() != 0 {
 		sched.Fail("pipeline:stalled", fmt.Sprintf("%d datagrams never read although every thread is idle", conn.Pending()))
+	}
+	// (not where the scenario itself wedges the mirror service: its dispatcher is then parked in a send by design,
+	// and the decoding side is judged by the counters and the published messages)
+	if n, who := sched.ParkedSenders(); n > 0 && !r.mirrorDead {
+		sched.Fail("pipeline:blocked-in-a-send", fmt.Sprintf("every thread is idle and %d thread(s) (first: %q) are parked in a channel send that nobody will ever take", n, who))
 	}
 	var o pipeObs
 	o.udp, o.decoded = pipeStats(pr)
@@ -549,6 +558,24 @@ func checkPipe(r *pipeRun, e pipeExp, o pipeObs) (string, string) {
 	if !r.inband {
 		if o.decoded != e.decoded {
 			return name + ":count:decoded", fmt.Sprintf("DecodedCount=%d, %d of the %d datagrams decode", o.decoded, e.decoded, e.udp)
+		}
+		if r.mqCap > 0 && len(e.payloads) > r.mqCap {
+			// the outgoing queue is full after mqCap messages (nobody consumes it): the rest may be dropped, but what
+			// is in the queue must be messages of these datagrams, each at most once, and the queue must be full
+			if len(o.published) != r.mqCap {
+				return name + ":publish:number", fmt.Sprintf("%d messages in an outgoing queue of capacity %d after %d publishable datagrams", len(o.published), r.mqCap, len(e.payloads))
+			}
+			left := map[string]int{}
+			for _, p := range e.payloads {
+				left[p]++
+			}
+			for _, p := range o.published {
+				if left[p] == 0 {
+					return name + ":publish:content", "with a full outgoing queue: a published message is not (or not once) the standalone decode of a received datagram:\n got  " + p
+				}
+				left[p]--
+			}
+			return "", ""
 		}
 		if len(o.published) != len(e.payloads) {
 			return name + ":publish:number", fmt.Sprintf("%d messages published, expected %d", len(o.published), len(e.payloads))
@@ -934,6 +961,8 @@ func c13Items(tier string) []pipeItem {
 				}
 			}
 		}
+		// the OUTGOING queue holds one message and nobody takes it: the workers must drop, not block, and go on counting
+		out = append(out, pipeItem{"outgoing queue of 1: dataB-short,dataA-mid,dataB-short", pipeRun{proto: p, workers: 2, seq: seqOf(al, "dataB-short", "dataA-mid", "dataB-short"), cache: cache, filter: filter, mqCap: 1}, 1})
 		// the receive queue holds one datagram: the receive loop has to wait for the workers
 		out = append(out, pipeItem{"receive queue of 1: dataB-short,dataA-mid,dataB-short", pipeRun{proto: p, workers: 1, seq: seqOf(al, "dataB-short", "dataA-mid", "dataB-short"), cache: cache, filter: filter, udpCap: 1}, 2})
 		if p == ppSFlow { // the type filter configured: a datagram whose samples are all filtered
